@@ -31,7 +31,11 @@ type crashSentinel struct{ site string }
 
 type c13Crash struct {
 	Effect int    `json:"effect"` // index of the durable effect of the crashing node
-	Phase  string `json:"phase"`  // before | after
+	Phase  string `json:"phase"`  // before | after | torn
+	// torn: the process dies in the middle of the write itself. The effect is executed, the process is
+	// killed and the LevelDB journal is cut back to Cut percent of the bytes this write appended, i.e. the
+	// directory holds a half-written last record, as after a death between two write(2) calls.
+	Cut int `json:"cut,omitempty"`
 }
 
 // In multi-crash plans SkipKnown makes the injector skip a crash that would fall between the round-state write and
@@ -58,7 +62,30 @@ type c13Outcome struct {
 	Fired      []string
 	Resurfaced string
 	Skipped    int
+	Torn       int // torn crashes whose journal cut really fell inside the record of the crashing write
 	Err        error
+}
+
+// journalFile returns the newest LevelDB journal (NNNNNN.log) of a state directory and its size.
+func journalFile(dir string) (string, int64) {
+	ents, err := os.ReadDir(dir)
+	if err != nil {
+		return "", 0
+	}
+	best := ""
+	for _, e := range ents {
+		if strings.HasSuffix(e.Name(), ".log") && e.Name() > best {
+			best = e.Name()
+		}
+	}
+	if best == "" {
+		return "", 0
+	}
+	fi, err := os.Stat(dir + "/" + best)
+	if err != nil {
+		return "", 0
+	}
+	return dir + "/" + best, fi.Size()
 }
 
 // publicProjection keeps what the property calls the outcome: state, threshold, per-participant status and
@@ -148,6 +175,11 @@ func c13Execute(p c13Plan, root string) (out c13Outcome) {
 	processed := 0
 	stopsDone := map[int]bool{}
 	var install func()
+	var jBefore struct {
+		file string
+		size int64
+	}
+	var tornCut func() // set by a torn crash: applied by restart once the database handle is released
 	install = func() {
 		nd := w.Nodes[cn]
 		hook := func(op, key, phase string) {
@@ -159,15 +191,39 @@ func c13Execute(p c13Plan, root string) (out c13Outcome) {
 			idx := count
 			if phase == "before" {
 				out.Sites = append(out.Sites, c13Effect{op, key})
+				if key != "board:send" {
+					jBefore.file, jBefore.size = journalFile(nd.LDB.VerifPath())
+				}
 			} else {
 				idx = count - 1
 			}
 			for ci, c := range p.Crashes {
-				if !fired[ci] && c.Effect == idx && c.Phase == phase {
+				cphase := c.Phase
+				if cphase == "torn" {
+					cphase = "after"
+				}
+				if !fired[ci] && c.Effect == idx && cphase == phase {
 					fired[ci] = true
-					if p.SkipKnown && phase == "before" && strings.HasSuffix(key, "_operations") && len(out.Sites) >= 2 && strings.HasSuffix(out.Sites[len(out.Sites)-2].Key, "_fsm_state") {
+					if p.SkipKnown && (phase == "before" || c.Phase == "torn") && strings.HasSuffix(key, "_operations") && len(out.Sites) >= 2 && strings.HasSuffix(out.Sites[len(out.Sites)-2].Key, "_fsm_state") {
 						out.Skipped++
 						continue
+					}
+					if c.Phase == "torn" {
+						if key == "board:send" {
+							continue // the board is not this node's state directory (C16 covers the board file)
+						}
+						file, size := journalFile(nd.LDB.VerifPath())
+						if file == jBefore.file && size > jBefore.size+1 {
+							cut := jBefore.size + 1 + (size-jBefore.size-2)*int64(c.Cut%100)/99
+							tornCut = func() {
+								if err := os.Truncate(file, cut); err == nil {
+									out.Torn++
+								}
+							}
+							out.Fired = append(out.Fired, fmt.Sprintf("torn %s %s (effect %d, journal cut at byte %d of %d..%d)", op, key, idx, cut, jBefore.size, size))
+							panic(crashSentinel{fmt.Sprintf("torn:%s:%s", op, key)})
+						}
+						// the write did not land in the journal tail (journal rotated): an ordinary crash after the write
 					}
 					if phase == "before" {
 						count++ // the effect is consumed by the crash (it never happens)
@@ -199,6 +255,10 @@ func c13Execute(p c13Plan, root string) (out c13Outcome) {
 		old.View.Hook = nil
 		old.Kill()
 		world.Drain()
+		if tornCut != nil {
+			tornCut()
+			tornCut = nil
+		}
 		nd, err := world.OpenNode(old.Name, old.Dir, old.KeyPair, old.View, false)
 		if err != nil {
 			return fmt.Errorf("restart after %s: %w", reason, err)
@@ -462,7 +522,8 @@ func c13Site(ref c13Outcome, c c13Crash) string {
 		}
 		return ref.Sites[i].Key
 	}
-	if c.Phase == "before" {
+	if c.Phase == "before" || c.Phase == "torn" {
+		// a torn write is dropped by the journal recovery: the crash point is the one before the write
 		return fmt.Sprintf("%s|%s", at(c.Effect-1), at(c.Effect))
 	}
 	return fmt.Sprintf("%s|%s", at(c.Effect), at(c.Effect+1))
@@ -511,6 +572,9 @@ func c13Run(t *testing.T, st *vstat.Stats, p c13Plan) *viol {
 		}
 	}
 	st.Class(fmt.Sprintf("n=%d,lazy=%v", p.N, p.Lazy))
+	if o.Torn > 0 {
+		st.Class("torn-journal-record")
+	}
 	for _, s := range sites {
 		st.Class("site:" + strings.ReplaceAll(s, world.Topic+"_", ""))
 	}
@@ -561,7 +625,14 @@ func TestC13(t *testing.T) {
 			}
 			st.SetExtra(fmt.Sprintf("effects_n%d_node%d_lazy%v", c.n, c.node, c.lazy), len(ref.Sites))
 			for k := range ref.Sites {
-				for _, ph := range []string{"before", "after"} {
+				phases := []c13Crash{{k, "before", 0}, {k, "after", 0}}
+				if ref.Sites[k].Key != "board:send" {
+					phases = append(phases, c13Crash{k, "torn", 50})
+					if thorough() {
+						phases = append(phases, c13Crash{k, "torn", 0}, c13Crash{k, "torn", 99})
+					}
+				}
+				for _, crash := range phases {
 					if !thorough() {
 						// quick: every 3rd point, plus every point adjacent to an operation-pool write or a board send
 						adj := false
@@ -582,7 +653,7 @@ func TestC13(t *testing.T) {
 					if job%sn != si {
 						continue
 					}
-					p := c13Plan{N: c.n, T: c.thr, Node: c.node, Lazy: c.lazy, Crashes: []c13Crash{{k, ph}}}
+					p := c13Plan{N: c.n, T: c.thr, Node: c.node, Lazy: c.lazy, Crashes: []c13Crash{crash}}
 					st.Eval()
 					v := c13Run(t, st, p)
 					if v != nil && st.IsKnown(v.Key) {
@@ -606,7 +677,12 @@ func TestC13(t *testing.T) {
 			} else {
 				for i := 0; i < 2; i++ {
 					// "after effect k" and "before effect k+1" are the same crash point; multi-crash plans use the second form
-					p.Crashes = append(p.Crashes, c13Crash{rapid.IntRange(0, 400).Draw(rt, "effect"), "before"})
+					c := c13Crash{Effect: rapid.IntRange(0, 400).Draw(rt, "effect"), Phase: "before"}
+					if rapid.Bool().Draw(rt, "torn") {
+						// the write before this crash point is half-written instead of absent
+						c.Phase, c.Cut = "torn", rapid.IntRange(0, 99).Draw(rt, "cut")
+					}
+					p.Crashes = append(p.Crashes, c)
 				}
 			}
 			return p
